@@ -17,6 +17,7 @@ EXPLANATION = (
     "does not compile (E0133)."
 )
 THOROUGH_CONFIGS = [C.NO_CHARWISE, C.NO_CACHE, C.NO_FIX, C.NO_TAG, C.SIMD]
+QUICK_CONFIGS = [C.NO_FIX]
 NOT_DECIDED = ["behavioural equality of the deserialised predictor (values)", "daachorse's serialize/deserialize_unchecked contract"]
 
 PAIRS = [
